@@ -8,6 +8,14 @@ W1_COMPONENTS = {
 }
 
 PROPS = {
+    "C17": {
+        "level": "exploration",
+        "quick_runs": 5000, "quick_budget_s": 45,
+        "thorough_budget_s": 300,
+        "rule": "C17 scenario: real NewUpstream(udp://) against a datagram and a stream server on one address; UDP replies with PRNG header flags/sizes (TC on/off), TCP side answers / refuses / dies mid-exchange; 1-4 concurrent callers.",
+        "components": W1_COMPONENTS,
+        "cfg_dist_keys": ["tcp_mode", "p_tc"],
+    },
     "C09": {
         "level": "exploration",
         "quick_runs": 5000, "quick_budget_s": 60,
